@@ -1001,3 +1001,11 @@ T('f_c13_headers_own_constant_pairs', ['C13', 'C12'],
   (E, _HE_POP, _HE_POP + "        if headers is None:\n            headers = [('X-Clastic-Error', '%s' % self.code)]\n"))
 T('f_c13_stamp_handler_notes_and_goes_on', ['C13', 'C12'],
   (A, _TAG, _TAG.replace('            pass\n', "            print('request type %r takes no id' % (self.request_type,))\n")))
+# ... the stamping inherited from a mixin of the tree is followed as well
+_APPCLS = 'class Application(object):\n'
+_MIXIN = ('class _Stamping(object):\n    def stamp(self, req):\n        try:\n            req.request_id = next(_REQ_ID_ITER)\n'
+          '        except %s:\n            return\n        req.request_guid = int2hexguid(req.request_id)\n\n\n')
+T('f_c13_stamp_in_mixin', ['C13'],
+  (A, _APPCLS, _MIXIN % 'Exception' + 'class Application(_Stamping):\n'), (A, _TAG, '        self.stamp(request)\n'))
+B('f_c13_stamp_in_mixin_guard_narrowed', ['C13'], 'R13.f',
+  (A, _APPCLS, _MIXIN % 'AttributeError' + 'class Application(_Stamping):\n'), (A, _TAG, '        self.stamp(request)\n'))
